@@ -43,6 +43,7 @@ type draDev struct {
 	multi    bool             // AllowMultipleAllocations (shared, capacity-consuming)
 	capMem   int64            // total memory capacity of a shared device (bytes)
 	counters map[string]int64 // counters one allocation of this device consumes from its pool's counter set
+	ctrSet   string           // name of that counter set (default "gpu-slices")
 }
 
 type draWorldSpec struct {
@@ -60,6 +61,11 @@ type draWorldSpec struct {
 	// capacity / exclusivity already consumed in the cluster before the pass
 	preExclusive map[string]bool
 	preMem       map[string]int64
+	preCtr       map[string]int64 // "driver/pool/counterSet/counter" -> consumed before the pass
+	// roomOnNode: the existing node keeps room for the batch (its node-local devices are then reachable)
+	roomOnNode bool
+	// nodeSlices: in-cluster slices pinned to the existing node with spec.nodeName (built once the node exists)
+	nodeSlices func(node *corev1.Node) []*resourcev1.ResourceSlice
 }
 
 type draType struct {
@@ -114,7 +120,7 @@ func draWorlds() []draWorldSpec {
 		return out
 	}
 	partBudget := map[string]int64{test.GPUDriver + "/part-pool/gpu-slices/slices": 4}
-	return []draWorldSpec{
+	out := []draWorldSpec{
 		{name: "templates-only {g1,g2,plain}", types: []draType{g1, g2, plain}, devs: with(nil)},
 		{name: "cluster-wide pool of 2 + zoned device + templates {g2,plain}", types: []draType{g2, plain},
 			slices: []*resourcev1.ResourceSlice{test.ClusterWideSlice("cw", test.GPUDriver, "cw-0", "cw-1"), test.ZonedSlice("za", test.GPUDriver, "a", "za-0")},
@@ -138,9 +144,56 @@ func draWorlds() []draWorldSpec {
 				return []*resourcev1.ResourceClaim{test.AllocatedSharedClaim("held", "shared", test.GPUDriver, "shared-0", test.CapacityRequest("20Gi"), test.PodConsumer(c))}
 			},
 			devs: with(map[string]draDev{gpuKey("shared", "shared-0"): {multi: true, capMem: 40 * draGi}}), preMem: map[string]int64{gpuKey("shared", "shared-0"): 20 * draGi}},
+		// node-local partitionable GPU published by the existing node (slices pinned with spec.nodeName, the form kubelet
+		// plugins publish): one 40Gi counter, partitions half-a / half-b (20Gi each) and whole (40Gi); WHOLE is already held
+		{name: "node-local partitionable device on the existing node, its whole-GPU partition held by a running pod {plain}", types: []draType{plain}, roomOnNode: true,
+			nodeSlices: func(node *corev1.Node) []*resourcev1.ResourceSlice {
+				pool := test.NodeLocalPoolName(test.GPUDriver, node.Name)
+				mk := func(name string, spec resourcev1.ResourceSliceSpec) *resourcev1.ResourceSlice {
+					spec.Driver, spec.NodeName = test.GPUDriver, &node.Name
+					spec.Pool = resourcev1.ResourcePool{Name: pool, Generation: 1, ResourceSliceCount: 2}
+					return &resourcev1.ResourceSlice{ObjectMeta: metav1.ObjectMeta{Name: name, OwnerReferences: []metav1.OwnerReference{{APIVersion: "v1", Kind: "Node", Name: node.Name, UID: node.UID}}}, Spec: spec}
+				}
+				part := func(name, amount string) resourcev1.Device {
+					return resourcev1.Device{Name: name, ConsumesCounters: []resourcev1.DeviceCounterConsumption{{CounterSet: "gpu-0", Counters: map[string]resourcev1.Counter{"memory": {Value: resource.MustParse(amount)}}}}}
+				}
+				return []*resourcev1.ResourceSlice{
+					mk("n0-counters", resourcev1.ResourceSliceSpec{SharedCounters: []resourcev1.CounterSet{{Name: "gpu-0", Counters: map[string]resourcev1.Counter{"memory": {Value: resource.MustParse("40Gi")}}}}}),
+					mk("n0-devices", resourcev1.ResourceSliceSpec{Devices: []resourcev1.Device{part("half-a", "20Gi"), part("half-b", "20Gi"), part("whole", "40Gi")}}),
+				}
+			},
+			allocated: func(c *corev1.Pod) []*resourcev1.ResourceClaim {
+				return []*resourcev1.ResourceClaim{test.AllocatedClusterWideClaim("held", test.NodeLocalPoolName(test.GPUDriver, "n0"), test.GPUDriver, "whole", test.PodConsumer(c))}
+			},
+			devs: with(map[string]draDev{
+				gpuKey(test.NodeLocalPoolName(test.GPUDriver, "n0"), "half-a"): {counters: map[string]int64{"memory": 20 * draGi}, ctrSet: "gpu-0"},
+				gpuKey(test.NodeLocalPoolName(test.GPUDriver, "n0"), "half-b"): {counters: map[string]int64{"memory": 20 * draGi}, ctrSet: "gpu-0"},
+				gpuKey(test.NodeLocalPoolName(test.GPUDriver, "n0"), "whole"):  {counters: map[string]int64{"memory": 40 * draGi}, ctrSet: "gpu-0"}}),
+			budgets:      map[string]int64{test.GPUDriver + "/" + test.NodeLocalPoolName(test.GPUDriver, "n0") + "/gpu-0/memory": 40 * draGi},
+			preExclusive: map[string]bool{gpuKey(test.NodeLocalPoolName(test.GPUDriver, "n0"), "whole"): true},
+			preCtr:       map[string]int64{test.GPUDriver + "/" + test.NodeLocalPoolName(test.GPUDriver, "n0") + "/gpu-0/memory": 40 * draGi}},
+		// ... and the same device with only ONE half held: the other half is still free, the whole is not
+		{name: "node-local partitionable device on the existing node, one half held by a running pod {plain}", types: []draType{plain}, roomOnNode: true,
+			nodeSlices: nil, // filled below (same slices)
+			allocated: func(c *corev1.Pod) []*resourcev1.ResourceClaim {
+				return []*resourcev1.ResourceClaim{test.AllocatedClusterWideClaim("held", test.NodeLocalPoolName(test.GPUDriver, "n0"), test.GPUDriver, "half-a", test.PodConsumer(c))}
+			},
+			devs: with(map[string]draDev{
+				gpuKey(test.NodeLocalPoolName(test.GPUDriver, "n0"), "half-a"): {counters: map[string]int64{"memory": 20 * draGi}, ctrSet: "gpu-0"},
+				gpuKey(test.NodeLocalPoolName(test.GPUDriver, "n0"), "half-b"): {counters: map[string]int64{"memory": 20 * draGi}, ctrSet: "gpu-0"},
+				gpuKey(test.NodeLocalPoolName(test.GPUDriver, "n0"), "whole"):  {counters: map[string]int64{"memory": 40 * draGi}, ctrSet: "gpu-0"}}),
+			budgets:      map[string]int64{test.GPUDriver + "/" + test.NodeLocalPoolName(test.GPUDriver, "n0") + "/gpu-0/memory": 40 * draGi},
+			preExclusive: map[string]bool{gpuKey(test.NodeLocalPoolName(test.GPUDriver, "n0"), "half-a"): true},
+			preCtr:       map[string]int64{test.GPUDriver + "/" + test.NodeLocalPoolName(test.GPUDriver, "n0") + "/gpu-0/memory": 20 * draGi}},
 		{name: "partitionable template device: 3 profiles x 2 of a budget of 4 {part,plain}", types: []draType{part, plain}, devs: with(nil), budgets: partBudget},
 		{name: "partitionable + plain GPUs {part,g2}", types: []draType{part, g2}, devs: with(nil), budgets: partBudget},
 	}
+	for i := range out {
+		if out[i].nodeSlices == nil && out[i].roomOnNode && i > 0 {
+			out[i].nodeSlices = out[i-1].nodeSlices
+		}
+	}
+	return out
 }
 
 type draClaimShape struct {
@@ -230,7 +283,16 @@ func buildDRA(ws draWorldSpec, c draCase) *draEnv {
 			}
 		}
 		_, node := w.BuildNode(world.NodeSpec{Name: "n0", Pool: "default", Type: plainSpec, Offer: plainSpec.Offers[0]})
-		holder := world.Pod("holder", 3500, world.Bound(node.Name)) // leaves no room for the batch on n0
+		holderCPU := int64(3500) // leaves no room for the batch on n0
+		if ws.roomOnNode {
+			holderCPU = 300
+		}
+		if ws.nodeSlices != nil {
+			for _, sl := range ws.nodeSlices(node) {
+				w.Add(sl)
+			}
+		}
+		holder := world.Pod("holder", holderCPU, world.Bound(node.Name))
 		holder.UID = types.UID("uid-holder")
 		for _, cl := range ws.allocated(holder) {
 			holder.Spec.ResourceClaims = append(holder.Spec.ResourceClaims, test.PodResourceClaimReference("dev", cl.Name))
@@ -328,6 +390,9 @@ func (env *draEnv) judgeDRA(out schedOutcome) (viol []c01Violation, allocated in
 		for k, v := range env.spec.preMem { // held before the pass (in-cluster devices)
 			mem["ic/"+k] = v
 		}
+		for k, v := range env.spec.preCtr {
+			ctr["ic/"+k] = v
+		}
 		for _, ck := range claims {
 			m := meta[ck]
 			ncID := m.NodeClaimID.Value()
@@ -369,7 +434,11 @@ func (env *draEnv) judgeDRA(out schedOutcome) (viol []c01Violation, allocated in
 					if a.DeviceID.Template {
 						cid = "tpl/" + ncID + "/"
 					}
-					ctr[cid+a.DeviceID.Driver.Value()+"/"+a.DeviceID.Pool.Value()+"/gpu-slices/"+cn] += q
+					set := info.ctrSet
+					if set == "" {
+						set = "gpu-slices"
+					}
+					ctr[cid+a.DeviceID.Driver.Value()+"/"+a.DeviceID.Pool.Value()+"/"+set+"/"+cn] += q
 				}
 			}
 		}
@@ -412,8 +481,8 @@ func c17DRA(r *ev.Rec) {
 		}
 	}
 	pols := []options.PreferencePolicy{options.PreferencePolicyRespect}
-	r.Rule += fmt.Sprintf(" DRA part: %d worlds (template GPUs on instance types; a cluster-wide pool, a zoned device; a device already held by a running pod; shared multi-allocatable devices in the cluster (partly consumed) and as templates; partitionable template devices drawing on a counter budget) x all ORDERED batches of <=%d pods whose claims come from %d shapes (one / two / all devices, two requests, capacity 15Gi / 30Gi, first-available, a claim shared with the previous pod) x completion orders (2 workers, <=1 deviation) through the real Provisioner.Schedule with DRA enabled and the real deviceallocation controller; oracle on Results.DRAClaimAllocationMetadata under EVERY resolution of the new NodeClaims to one of their remaining instance types: no exclusive device (in-cluster: globally; template: per NodeClaim) has two users or is already held, consumed capacity of a shared device <= its capacity incl. what was held before, consumed counters <= the pool's budget, no panic from the tracker's guards.", len(ws), bsz, len(draShapes))
-	r.Assumptions = append(r.Assumptions, "DRA part: devices, capacities and counter budgets are known to the oracle from the harness's own description of the slices and templates (built with the repository's fixtures in pkg/test and pkg/cloudprovider/fake)", "DRA part: node-local slices of existing nodes and attribute-binding constraints are not in the alphabet")
+	r.Rule += fmt.Sprintf(" DRA part: %d worlds (template GPUs on instance types; a cluster-wide pool, a zoned device; a device already held by a running pod; shared multi-allocatable devices in the cluster (partly consumed) and as templates; partitionable template devices drawing on a counter budget; a node-local partitionable device published by an existing node with one partition already held) x all ORDERED batches of <=%d pods whose claims come from %d shapes (one / two / all devices, two requests, capacity 15Gi / 30Gi, first-available, a claim shared with the previous pod) x completion orders (2 workers, <=1 deviation) through the real Provisioner.Schedule with DRA enabled and the real deviceallocation controller; oracle on Results.DRAClaimAllocationMetadata under EVERY resolution of the new NodeClaims to one of their remaining instance types: no exclusive device (in-cluster: globally; template: per NodeClaim) has two users or is already held, consumed capacity of a shared device <= its capacity incl. what was held before, consumed counters <= the pool's budget, no panic from the tracker's guards.", len(ws), bsz, len(draShapes))
+	r.Assumptions = append(r.Assumptions, "DRA part: devices, capacities and counter budgets are known to the oracle from the harness's own description of the slices and templates (built with the repository's fixtures in pkg/test and pkg/cloudprovider/fake)", "DRA part: attribute-binding constraints, admin access and several drivers are not in the alphabet")
 	r.Extra["dra_worlds"] = len(ws)
 	r.Extra["dra_claim_shapes"] = len(draShapes)
 	enum.Run(r, enum.Size(len(ws), len(bl), len(pols)), func(idx int64, l *ev.Local) {
